@@ -44,7 +44,8 @@ class Kernel:
         self.modconsts = modconsts or {}
         self.accesses = {}               # key -> Access (worst verdict over paths)
         self.calls = []                  # (callee dotted name, node, [arg Vals], {kw: Val}, state)
-        self.assumed_syms = {}           # symbol -> reason (facts that came from a contract)
+        self.assumed_syms = {}           # symbol -> reason (symbols whose bounds came from a contract/lemma)
+        self.assumed_facts = {}          # Lin (>= 0 fact) -> reason (contract clauses)
         self.notes = []
         self.cursors = {}                # var -> dict(E=array var name, guarded=bool, ...)
         self.record_stores = False
@@ -53,6 +54,8 @@ class Kernel:
         self.returns = []                # state snapshots at return statements / function end
         self.raises = []                 # (raise node, state snapshot)
         self.max_paths = None
+        self.content_in = {}             # local array name -> (lo, hi, reason): element bounds from a previous pass
+        self.content_out = {}            # local array name -> list of (lo_ok, [hi candidates]) per store
         self.split_dnf = False           # split paths on and/or/!= conditions (small decision code only)
         self.nsteps = 0
 
@@ -154,8 +157,7 @@ class Kernel:
             raise AnalysisError(f'contract clause not linear: {txt}')
         for l in c.tf:
             st.facts.add_ge(l)
-            for s in l.syms():
-                self.assumed_syms.setdefault(s, reason)
+            self.assumed_facts[l] = reason
 
     # ------------------------------------------------------------- expressions
     def ev(self, node, st, quiet=False):
@@ -217,9 +219,13 @@ class Kernel:
                 if isinstance(op, ast.Mult):
                     if a.lin.is_const() or b.lin.is_const():
                         return Int(a.lin * b.lin)
-                    s = Lin.sym(fresh('prod'))
+                    s = Lin.sym(f'prod[{a.lin}*{b.lin}]')
                     if prove.entails_ge(st, a.lin) and prove.entails_ge(st, b.lin):
                         st.facts.add_ge(s)
+                        if prove.entails_ge(st, b.lin - 1):
+                            st.facts.add_ge(s - a.lin)
+                        if prove.entails_ge(st, a.lin - 1):
+                            st.facts.add_ge(s - b.lin)
                     return Int(s)
                 if isinstance(op, ast.FloorDiv) and b.lin.is_const() and b.lin.c > 0 and b.lin.c.denominator == 1:
                     return Int(st.facts.fdiv(a.lin, int(b.lin.c)))
@@ -503,7 +509,7 @@ class Kernel:
         k = (base.ident, tuple(idxkey))
         if None not in idxkey and k in st.elem:
             return st.elem[k]
-        cb = st.content.get(base.ident) or base.tags.get('content')
+        cb = st.content.get(base.ident) or base.tags.get('content') or self.content_in.get(base.ident.split('#')[0])
         if cb is not None:
             lo, hi, why = cb
             s = Lin.sym(fresh(f'{base.ident}[]'))
@@ -541,14 +547,17 @@ class Kernel:
         acc = Access(arrname, axis, idx, text, getattr(node, 'lineno', None), store)
         if self.record_stores:
             (self.stores if store else self.loads).append((arrname, axis, idx, st.copy(), node))
-        verdict, detail, wit = self._decide(base, idx, dim, st)
+        verdict, detail, wit = self._decide(base, idx, dim, st, text)
         acc.verdict, acc.detail, acc.witness = verdict, detail, wit
         old = self.accesses.get(acc.key)
         rank = {'PROVEN': 0, 'ASSUMED': 1, 'UNKNOWN': 2, 'REFUTED': 3}
         if old is None or rank[verdict] > rank[old.verdict]:
             self.accesses[acc.key] = acc
 
-    def _decide(self, base, idx, dim, st):
+    def _decide(self, base, idx, dim, st, text=''):
+        vi = self.contract.get('value_indices', {})
+        if text in vi:
+            return 'ASSUMED', vi[text], None
         if idx is None:
             return 'UNKNOWN', 'index is not an integer expression the analyser tracks', None
         if dim is None:
@@ -557,9 +566,17 @@ class Kernel:
         lo = prove.entails_ge(st, idx + dim)
         if up and lo:
             syms = self._goal_cone_syms(st, idx, dim)
-            why = sorted({self.assumed_syms[s] for s in syms if s in self.assumed_syms})
+            why = {self.assumed_syms[s] for s in syms if s in self.assumed_syms}
+            if self.assumed_facts:
+                # does the proof go through without the contract clauses?
+                bare = st.copy()
+                bare.facts.ge = [l for l in st.facts.ge if l not in self.assumed_facts]
+                if not (prove.entails_lt(bare, idx, dim) and prove.entails_ge(bare, idx + dim)):
+                    from .absval import cone
+                    uge, _, _ = cone(st.facts.ge, st.facts.eq, (idx - dim).syms() | idx.syms() | dim.syms(), st.cases)
+                    why |= {self.assumed_facts[l] for l in uge if l in self.assumed_facts}
             if why:
-                return 'ASSUMED', '; '.join(why), None
+                return 'ASSUMED', '; '.join(sorted(why)), None
             return 'PROVEN', f'-{dim} <= {idx} < {dim}', None
         goal = (dim - idx - 1) if not up else (idx + dim)
         if not st.facts.lossy:
